@@ -304,7 +304,7 @@ def programs(tier: str) -> list[Program]:
             ps.append(Program(f"dbos_two_replicas/waits={n}/releaser_crashes={crash}", {"waits": n, "crash": crash},
                               (lambda ex, n=n, crash=crash: execute_dbos(ex, n, 5.0, crash)), max_dev=(3 if q else 5)))
         ps.append(Program(f"dbos_two_replicas/waits={n}/releaser_stalls", {"waits": n, "stall": True},
-                          (lambda ex, n=n: execute_dbos(ex, n, 5.0, False, True)), max_dev=(3 if q else 5)))
+                          (lambda ex, n=n: execute_dbos(ex, n, 5.0, False, True)), max_dev=(4 if q else 5)))
     return ps
 
 
